@@ -15,7 +15,9 @@
 //!  * NU6.3 activates at `N63` so that a wallet scanned to `SHORT_TIP` proposes for a pre-NU6.3
 //!    target height and one scanned to `T0` for a post-NU6.3 one;
 //!  * the genesis frontiers end two leaves below a 2^16 shard boundary, so the first notes of A
-//!    sit in shard 0 and the rest in shard 1 (`v_*_shards_scan_state` gating is per shard).
+//!    sit in shard 0 and the rest in shard 1 (`v_*_shards_scan_state` gating is per shard); `s25` is
+//!    the second leaf of Sapling shard 1 and is followed by the blocks the `gap` start state leaves
+//!    unscanned.
 
 use crate::universe::Owner::*;
 use crate::universe::Pool::*;
@@ -30,8 +32,10 @@ pub const SHORT_TIP: u32 = F + 4;
 pub const N63: u32 = F + 6;
 /// Last block of the universe.
 pub const T0: u32 = F + 18;
-/// First height scanned in the `gap` start state (blocks F..GAP_FROM-1 are scanned later by `FillGap`).
-pub const GAP_FROM: u32 = F + 3;
+/// The `gap` start state scans F..GAP.0-1 and GAP.1+1..T0; blocks GAP.0..=GAP.1 are scanned later
+/// by `FillGap`. The gap lies inside shard 1, after the receipt of `s25` (whose Merkle path then needs
+/// commitments of unscanned blocks) and before the receipts of F+6..T0 (whose paths do not).
+pub const GAP: (u32, u32) = (F + 2, F + 5);
 /// Anchor retention interval of the wallets (also the ZIP 318 anchor bucket grid).
 pub const RETENTION: u32 = 4;
 
@@ -43,7 +47,7 @@ pub fn build() -> Universe {
     // F+1: two transactions; B's note next to A's
     blocks.push(block(vec![
         tx(vec![foreign(Orchard, 22_222), out("o70", A, Orchard, External, 70_000)]),
-        tx(vec![out("b1", B, Sapling, External, 30_000), out("b2", B, Orchard, External, 33_000)]),
+        tx(vec![out("b1", B, Sapling, External, 30_000), out("s25", A, Sapling, External, 25_000), out("b2", B, Orchard, External, 33_000)]),
     ]));
     // F+2: the note that is spent on chain at F+5, and the big Orchard note
     blocks.push(block(vec![tx(vec![out("sx", A, Sapling, External, 45_000), out("o1m", A, Orchard, External, 1_200_000)])]));
